@@ -88,3 +88,30 @@ PROPS["C10"] = dict(
     ],
     assumptions=["Box<str> contents do not move when the owning SimpleTerm value is moved or the hash table is rehashed", "MownStr::clone copies the pointer of a borrowed string and allocates for an owned one"],
 )
+
+PROPS["C03"] = dict(
+    level="proof", runs=[dict(bin="c03")],
+    quick=dict(n=2000, shards=16),
+    thorough=dict(n=60000, shards=128, run_timeout=3000, coq_case_timeout=3000),
+    trusted_base=[
+        "model coq/C03/Model.v of quoted_string/write_term/write_triple (turtle/src/serializer/nt.rs) and of the statement/graph-name rule of nt.rs/nq.rs (hand-written, byte level; utf8 from Common/Term.v)",
+        "the reference reader (strict UTF-8 decoder + recursive descent over code points) is hand-written from the W3C N-Quads grammar plus quotedTriple; it is cross-checked against sophia's Rio parser on hand-formatted documents with ECHAR/UCHAR escapes, comments, CRLF and malformed input",
+        "sophia's parsers (Rio) are exercised by the oracle, not modelled",
+    ],
+    assumptions=["terms satisfy wf_quads: IRIREF-legal IRIs, BLANK_NODE_LABEL labels, LANGTAG tags, scalar-value lexical forms, no variables",
+                 "the oracle compares language tags up to ASCII case (Rio lower-cases them)"],
+)
+
+PROPS["C20"] = dict(
+    level="proof",
+    runs=[dict(bin="c20")],
+    quick=dict(n=2000, shards=16),
+    thorough=dict(n=30000, shards=128, run_timeout=3000, coq_case_timeout=3000),
+    trusted_base=[
+        "model coq/C20/Model.v of api/src/term/_native_literal.rs and of core's integer Display/FromStr, bool FromStr, the grammar accepted by f64::from_str and flt2dec::digits_to_dec_str (hand-written); datatype white-lists transcribed by hand",
+        "XSD 1.1 lexical spaces and integer facets transcribed as boolean recognisers/tables (integer recogniser proved equal to its explicit grammar; Rust's numeric float grammar proved equal to xsd:double's)",
+        "finite doubles: format_shortest is a universally quantified Section parameter assumed only to return digit strings; exact value round-trip and the xsd:float (f32) rounding are checked by the Rust oracle, which trusts std's str::parse::<f64/f32> as correctly rounded",
+        "isize/usize are 64 bits",
+    ],
+    assumptions=["64-bit target", "format_shortest returns ASCII digits (checked on every generated double)"],
+)
